@@ -108,6 +108,24 @@ theorem c10_later_true_hit_fires (c : Cfg) (pre : List Hit) (h : Hit) (st : Stat
   obtain ⟨h1, h2⟩ := stepHit_fires c st h hh ha ht
   simp [runFrom, h1, h2]
 
+/-- **every action kind is gated** — the action context classes that override the gate are exactly the metric and
+    the span action (enumerated from the sources); for every kind the action may trigger only if the common gate
+    (limits ∧ condition) lets it, evaluates the condition no more often, and with its processor active it IS the
+    common gate.  So a false or failing condition stops snapshots, logs, metrics and spans alike. -/
+theorem c10_every_kind_gated (k : Kind) (hasProc : Bool) (c : Cfg) (st : Stats) (h : Hit) :
+    gateOverrides = ["MetricActionContext.can_trigger", "SpanActionContext.can_trigger"] ∧
+    ((checkKind k hasProc c st h).1 = true → (check c st h).1 = true) ∧
+    (checkKind k hasProc c st h).2 ≤ (check c st h).2 ∧
+    (hasProc = true → stepHitK k hasProc c st h = stepHit c st h) ∧
+    ((k = .metric ∨ k = .span) → hasProc = false → stepHitK k hasProc c st h = (st, false, 0)) := by
+  refine ⟨by decide, ?_, ?_, ?_, ?_⟩
+  · cases k <;> cases hasProc <;> simp [checkKind, metricCanTrigger, spanCanTrigger]
+  · cases k <;> cases hasProc <;> simp [checkKind, metricCanTrigger, spanCanTrigger]
+  · intro hp; subst hp
+    cases k <;> simp [stepHitK, stepHit, checkKind, metricCanTrigger, spanCanTrigger] <;> rfl
+  · intro hk hp; subst hp
+    rcases hk with rfl | rfl <;> simp [stepHitK, checkKind, metricCanTrigger, spanCanTrigger]
+
 /-- **limits first** — when the limits forbid the hit the condition is not evaluated at all (no oracle call),
     and the answer is no; in general at most one oracle call is made, and none for a blank condition. -/
 theorem c10_limits_first (c : Cfg) (st : Stats) (h : Hit) (hl : Limiter.allowed c.lim st h.ts = false) :
